@@ -667,6 +667,9 @@ def _r1_r2_fkm_nonlinear(ctx):
                 env[s.targets[0].id] = sl
             elif isinstance(s.value, ast.Call) and call_name(s.value) in ("np.abs", "abs"):
                 env[s.targets[0].id] = s.value
+            elif len(s.targets) == 1 and sum(1 for x_ in ast.walk(fi.node) if isinstance(x_, ast.Name) and x_.id == s.targets[0].id
+                                             and isinstance(x_.ctx, ast.Store)) == 1:
+                env[s.targets[0].id] = s.value               # a temporary of the loop body (bound once)
     atom = _py_atomizer(env)
     m = {"cur": ("absdiff", frozenset([IN, SL(-1)])), "prev": ("absdiff", frozenset([SL(-1), SL(-2)])),
          "a0": ("abs", SL(-2)), "a1": ("abs", SL(-1)), "ac": ("abs", IN), "mx": ("sym", "load_max_seen")}
@@ -676,12 +679,16 @@ def _r1_r2_fkm_nonlinear(ctx):
     if len(ci) != 1:
         raise AnalysisError("_hcm_process_sample: case c)i branch not found")
     # not closing iff cur < prev (ties close): guard uses prev - eps
-    _cmp_pred(ctx, fi, ci[0], ci[0].test, atom, "cur < prev", m, "HCM 'no hysteresis closed' test (ties close)")
+    temps_ = {k_: v_ for k_, v_ in env.items() if isinstance(v_, ast.AST)}
+
+    def _unfold(e_):
+        return subst_names(subst_names(e_, temps_), temps_) if temps_ else e_
+    _cmp_pred(ctx, fi, ci[0], _unfold(ci[0].test), atom, "cur < prev", m, "HCM 'no hysteresis closed' test (ties close)")
     # tolerance direction: with eps the comparison must still be 'ties close'
     mem2 = [s for s in loop.body if isinstance(s, ast.If) and any(isinstance(x, ast.Continue) for x in s.body)]
     if len(mem2) != 1:
         raise AnalysisError("_hcm_process_sample: Memory-2 branch not found")
-    _cmp_pred(ctx, fi, mem2[0], mem2[0].test, atom, "a0 < mx and a1 < mx", m, "HCM Memory-2 (keep closing) test")
+    _cmp_pred(ctx, fi, mem2[0], _unfold(mem2[0].test), atom, "a0 < mx and a1 < mx", m, "HCM Memory-2 (keep closing) test")
     ai = [s for s in walk_stmts(loop.body) if isinstance(s, ast.If) and any(
         isinstance(c.func, ast.Attribute) and c.func.attr == "_handle_case_a_i" for x in s.body
         if not isinstance(x, (ast.If, ast.While, ast.For)) for c in calls_in(x))]
